@@ -211,7 +211,7 @@ fn run(ctx: &Ctx) {
 	// quick: shards 0-5 spend their time on the reference-count growth sub-runs (the base
 	// database costs ~1 min to build), the other shards share the tree histories
 	let growth_shard = ctx.tier != "thorough" && ctx.shard < 6 && ctx.shards > 6;
-	let n = if ctx.tier == "thorough" || ctx.shards <= 6 { scaled(ctx, 4_000, 100_000) } else { (4_000 / (ctx.shards - 6)) as u32 + 1 };
+	let n = if ctx.tier == "thorough" || ctx.shards <= 6 { scaled(ctx, 4_000, 60_000) } else { (4_000 / (ctx.shards - 6)) as u32 + 1 };
 	if !growth_shard && !ctx.run_prop("trees", n, scenario(40), run_scenario) {
 		return
 	}
@@ -223,7 +223,7 @@ fn run(ctx: &Ctx) {
 	}
 	if !growth_shard {
 		// the same histories with the library's own worker threads
-		let n = scaled(ctx, 300, 20_000);
+		let n = scaled(ctx, 300, 5_000);
 		if !ctx.run_prop("trees-bg", n, scenario(40), |sc, dir| run_scenario_mode(sc, dir, true)) {
 			return
 		}
@@ -240,11 +240,11 @@ fn run(ctx: &Ctx) {
 			},
 		};
 		ctx.note(&format!("refcount growth base: {} nodes, {} node addresses in the chosen chunk", base.nodes, base.colliding.len()));
-		let n = if ctx.tier == "thorough" { scaled(ctx, 0, 1_400) } else { 3 };
+		let n = if ctx.tier == "thorough" { scaled(ctx, 0, 400) } else { 3 };
 		if !ctx.run_prop_shrink("refcount-growth", n, 30, super::refgrow::rg_case(false), |c, dir| super::refgrow::run_case(&base, c, dir)) {
 			return
 		}
-		let n = if ctx.tier == "thorough" { scaled(ctx, 0, 1_400) } else { 3 };
+		let n = if ctx.tier == "thorough" { scaled(ctx, 0, 400) } else { 3 };
 		ctx.run_prop_shrink("refcount-growth-crash", n, 30, super::refgrow::rg_case(true), |c, dir| super::refgrow::run_case(&base, c, dir));
 		let _ = std::fs::remove_dir_all(&base_dir);
 	}
